@@ -57,6 +57,7 @@ func c07Configs(tier string) []c07cfg {
 	maxLen := 2
 	if tier != "quick" {
 		maxLen = 3
+		alpha = "PpRSDz"
 	}
 	gen = func(prefix string, n int) {
 		if len(prefix) > 0 {
@@ -81,10 +82,12 @@ func c07Configs(tier string) []c07cfg {
 	if tier == "quick" {
 		// a few length-3 sequences whose middle command replaces the targets or changes the limit
 		seqs = append(seqs, "PDR", "PDS", "PpR", "pPS", "SDR", "PRP")
+		// a pause with a hold limit of zero (requests are answered 504 on arrival), released, replaced or extended
+		seqs = append(seqs, "z", "zR", "zS", "zP", "Pz", "zD")
 	}
 	for _, s := range seqs {
 		// sequences that never touch the gate are C02's business
-		if !strings.ContainsAny(s, "PpS") {
+		if !strings.ContainsAny(s, "PpzS") {
 			continue
 		}
 		for i, cl := range sets {
@@ -180,6 +183,8 @@ func c07Scenario(c c07cfg) *Scenario {
 				o = w.Pause("s1", drain, c07Long)
 			case 'p':
 				o = w.Pause("s1", drain, c07Short)
+			case 'z':
+				o = w.Pause("s1", drain, 0)
 			case 'R':
 				o = w.Resume("s1")
 			case 'S':
@@ -277,6 +282,8 @@ func c07Scenario(c c07cfg) *Scenario {
 				g.kind, g.limit, g.msg = "paused", c07Long, ""
 			case 'p':
 				g.kind, g.limit, g.msg = "paused", c07Short, ""
+			case 'z':
+				g.kind, g.limit, g.msg = "paused", 0, "" // nothing is held: the limit has passed on arrival
 			case 'R':
 				g.kind, g.msg = "running", ""
 			case 'S':
@@ -385,7 +392,7 @@ func c07Scenario(c c07cfg) *Scenario {
 							break
 						}
 					}
-					if k >= 0 {
+					if k >= 0 && g.limit > 0 {
 						for x := k; x <= jmax; x++ {
 							switch states[x].kind {
 							case "stopped":
@@ -453,7 +460,7 @@ func c07Scenario(c c07cfg) *Scenario {
 				// refused while no command was draining the targets (nothing explains a draining target then)
 				duringDrain := false
 				for x, cm := range cmdList {
-					if strings.ContainsRune("PpSD", rune(c.seq[x])) && cm.StartSeq < r.EndSeq && r.EndSeq < cm.EndSeq {
+					if strings.ContainsRune("PpzSD", rune(c.seq[x])) && cm.StartSeq < r.EndSeq && r.EndSeq < cm.EndSeq {
 						duringDrain = true
 					}
 				}
@@ -464,7 +471,7 @@ func c07Scenario(c c07cfg) *Scenario {
 				// arriving at a later instant cannot have passed it legitimately
 				if !stalled {
 					for x, cm := range cmdList {
-						if (c.seq[x] == 'P' || c.seq[x] == 'p' || c.seq[x] == 'S') && cm.StartSeq < r.StartSeq && r.Start > cm.Start && r.Start <= cm.End {
+						if (c.seq[x] == 'P' || c.seq[x] == 'p' || c.seq[x] == 'z' || c.seq[x] == 'S') && cm.StartSeq < r.StartSeq && r.Start > cm.Start && r.Start <= cm.End {
 							sig += " arrived-after-gate-closed"
 							break
 						}
@@ -503,7 +510,7 @@ func checkC07(t *testing.T, job *Job, res *Result) {
 		scs = append(scs, sc)
 	}
 	b := Bounds{D: 2, S: 2, Total: 2}
-	res.Rule = "configurations = command sequences over {pause(3.15s), pause(1.05s), resume, stop(msg), redeploy} (length<=2 quick, <=3 thorough) x client sets {ordinary GET, GET and POST on the health path} arriving at offsets between the commands, plus sequences whose second command is issued by another operator while the first one is still draining a request that never finishes; per configuration every schedule within the bounds; oracle: each request must be explained by SOME arrival point of a sequential gate model (DESIGN.md C07), exact virtual times without stalls"
+	res.Rule = "configurations = command sequences over {pause(3.15s), pause(1.05s), pause(0), resume, stop(msg), redeploy} (length<=2 quick, <=3 thorough) x client sets {ordinary GET, GET and POST on the health path} arriving at offsets between the commands, plus sequences whose second command is issued by another operator while the first one is still draining a request that never finishes; per configuration every schedule within the bounds; oracle: each request must be explained by SOME arrival point of a sequential gate model (DESIGN.md C07), exact virtual times without stalls"
 	runS(t, job, res, "C07", scs, b, 8000)
 	if tier == "quick" {
 		res.Bounds = "every configuration with <=1 deviation (thread, select order or stall); every 5th configuration with <=2"
